@@ -35,3 +35,10 @@ c14("empty-file-in-fast-path", {"shape": "flat", "files": [f([], "f0.parquet", 3
 c14("single-top-level-value-needs-root", {"shape": "hive", "files": [f(["k=a"], "f0.parquet", 2, 0), f(["k=a"], "f1.parquet", 1, 3)], "root_mode": "given", "cat_mode": "none",
                                           "verify": False, "bad_schema": None, "what": "all files below one key value: the partition column exists only with root given", "fixed_by": "none (documented behaviour)"})
 print("ok")
+# wave 2 additions (kept here so that the corpus can be regenerated)
+case("categorical-typed-labels", pd.DataFrame({**base(4), "c": pd.Categorical([1, 10, 1, 2], categories=[10, 1, 2, 5]), "b": pd.Categorical([True, False, True, True])}),
+     ["c", "b"], "hive", 2, "categorical partition columns with integer / boolean labels came back as text", "34e2c68")
+case("percent-sequences", pd.DataFrame({**base(6), "k": pd.Series(["a%2Fb", "A%42", "AB", "%41", "A", "x%25"], dtype=object)}), ["k"], "hive", 3,
+     "text keys with percent sequences must not be decoded (seeded C08-4)", "regression guard")
+case("cat-text-labels-next-to-int8", pd.DataFrame({**base(4), "c": pd.Categorical(["1", "2", "1", "7"]), "i": np.array([1, 2, 7, 1], dtype="int8")}), ["c", "i"], "hive", None,
+     "text labels '1','2' of a categorical (int8 codes) next to an int8 column with the same texts (seeded C08-3)", "regression guard")
